@@ -32,6 +32,12 @@ Definition ok_val (c : list optev * N) : bool :=
   let '(evs, code) := c in verdict_code (decide evs) =? code.
 Definition is_run (c : list optev * N) : bool := let '(evs, _) := c in verdict_code (decide evs) =? 100.
 
+(* the macat command: an option list the model rejects (or a usage error) ends with a non-zero exit status and a message on stderr *)
+Definition ok_exit (c : bool * list optev * N * N) : bool :=
+  let '(usage, evs, code, errlen) := c in
+  (usage || negb (verdict_code (decide evs) =? 100)) && negb (code =? 0) && (code <? 900) && (0 <? errlen).
+Definition bad_exit := Eval vm_compute in bad_idx ok_exit exit_cases.
+Print bad_exit.
 Definition bad_fmt := Eval vm_compute in bad_idx ok_fmt fmt_cases.
 Definition bad_big := Eval vm_compute in bad_idx ok_big big_cases.
 Definition bad_stream := Eval vm_compute in bad_idx ok_stream stream_cases.
@@ -54,7 +60,15 @@ def items(defs_text, name):
 
 def run(res):
     core.std_proof_coverage(res, "C20")
-    out, defs, (rc, so, se) = core.gen_and_eval("C20", "c20", HEADER, FOOTER)
+    # the command itself, built from /repo's macat/macat
+    core.go_prepare()
+    import os
+    macat_bin = os.path.join(core.WORK, "bin", "macat")
+    os.makedirs(os.path.dirname(macat_bin), exist_ok=True)
+    rcb, sob, seb, _ = core.run(["go", "build", "-o", macat_bin, "go.nanomsg.org/mangos/v3/macat/macat"], cwd=core.HARNESS, env=core.GOENV, timeout=600)
+    if rcb != 0:
+        raise core.Broken("go build macat/macat failed:\n%s%s" % (sob[-2000:], seb[-2000:]))
+    out, defs, (rc, so, se) = core.gen_and_eval("C20", "c20", HEADER, FOOTER, env={"MACAT_BIN": macat_bin})
     if out is None:
         res.violation("harness-abort", "the macat harness did not complete on the current tree (rc=%d)" % rc,
                       {"stderr": se[-3000:], "panic": "panic:" in se, "correspondence": "cmd/c20 vs Model/Macat.v"}, found_input=("panic:" in se))
@@ -66,7 +80,9 @@ def run(res):
               ("stream_cases", "bad_stream", "App.Run receive loop output differs from the concatenation of the model's records"),
               ("send_cases", "bad_send", "messages put on the socket differ from send_loop count data"),
               ("dur_cases", "bad_dur", "Duration.UnmarshalText differs from the model on a bare integer"),
-              ("val_cases", "bad_val", "App.Run's accept/reject verdict differs from the model's decide")]
+              ("val_cases", "bad_val", "App.Run's accept/reject verdict differs from the model's decide"),
+              ("exit_cases", "bad_exit", "the built macat command did not end a rejected command line with a non-zero exit status and a message on stderr "
+                                         "(997/998: it ran or was killed instead): (usage error?, option events, exit status, bytes on stderr)")]
     total = 0
     samples = []
     dist = {}
